@@ -1,9 +1,174 @@
-(* C14 — property theorems (placeholder while the pipeline is brought up). *)
+(* C14 — The word-filter dictionary is exactly the words added and not removed.
+   Only the property theorems: each is closed by lemmas of C14/Proofs*.v and followed by
+   Print Assumptions.  `run ops` is the dictionary after an arbitrary history of AddWord /
+   Remove / Reset calls; `terminal (root t) w = true` says that w is a word of the
+   dictionary t (exact membership, what the verif probe observes); words and texts are
+   arbitrary lists of runes.  The model is the code after fix 5fab757. *)
 From Coq Require Import ZArith List Bool.
-From FV Require Import C14.Model C14.Proofs.
+From FV Require Import C14.Model C14.ProofsDict C14.ProofsMatch C14.ProofsWild.
 Import ListNotations.
 Open Scope Z_scope.
 
-Theorem c14_add_empty : forall t, add_word [] t = t.
-Proof. exact add_empty. Qed.
-Print Assumptions c14_add_empty.
+(* "The filter's dictionary is exactly the set of words added and not since removed"
+   (AddWord("") is ignored by the code, so the empty word is never a member) *)
+Theorem c14_dict_is_set : forall ops w,
+  terminal (root (run ops)) w = true <->
+  w <> [] /\ exists before after, ops = before ++ AddWord w :: after /\
+                                  ~ In (RemoveWord w) after /\ ~ In Reset after.
+Proof.
+  intros ops w. destruct (inv_run ops) as [R _].
+  rewrite (rep_terminal _ _ R). apply spec_run_history.
+Qed.
+Print Assumptions c14_dict_is_set.
+
+(* "removing a word reports whether it was present" *)
+Theorem c14_remove_reports : forall ops w,
+  snd (remove w (run ops)) = true <-> terminal (root (run ops)) w = true.
+Proof.
+  intros ops w. destruct (inv_run ops) as [R Hn].
+  rewrite (rep_terminal _ _ R). apply remove_reports. split; assumption.
+Qed.
+Print Assumptions c14_remove_reports.
+
+(* "... never changes how any other word matches" — membership of every other word is
+   untouched (and c14_matching_depends_only_on_words below: matching is a function of the
+   membership) *)
+Theorem c14_remove_others_unchanged : forall ops w w', w' <> w ->
+  terminal (root (run (ops ++ [RemoveWord w]))) w' = terminal (root (run ops)) w'.
+Proof.
+  intros ops w w' Hne. unfold run. rewrite fold_left_app. cbn [fold_left step].
+  fold (run ops). destruct (inv_run ops) as [R Hn].
+  pose proof (inv_remove w _ _ (conj R Hn)) as [R' _].
+  destruct (terminal (root (run ops)) w') eqn:T.
+  - apply (rep_terminal _ _ R'). apply in_dict_remove. split; [apply (rep_terminal _ _ R); exact T | exact Hne].
+  - destruct (terminal (root (fst (remove w (run ops)))) w') eqn:T'; [|reflexivity].
+    apply (rep_terminal _ _ R') in T'. apply in_dict_remove in T' as [T' _].
+    apply (rep_terminal _ _ R) in T'. congruence.
+Qed.
+Print Assumptions c14_remove_others_unchanged.
+
+(* "the word count equals the size of that set" *)
+Theorem c14_count : forall ops, exists d,
+  NoDup d /\ (forall w, In w d <-> terminal (root (run ops)) w = true) /\
+  size (run ops) = Z.of_nat (length d).
+Proof.
+  intros ops. destruct (inv_run ops) as [R _]. exists (spec_run ops).
+  split; [apply (rep_nodup _ _ R)|]. split; [|apply (rep_size _ _ R)].
+  intros w. symmetry. apply (rep_terminal _ _ R).
+Qed.
+Print Assumptions c14_count.
+
+(* no dead branches are left behind: every path of the trie leads to a word *)
+Theorem c14_pruned : forall ops p, p <> [] -> has_path (root (run ops)) p = true ->
+  exists q, terminal (root (run ops)) (p ++ q) = true.
+Proof. intros ops. destruct (inv_run ops) as [R _]. exact (rep_pruned _ _ R). Qed.
+Print Assumptions c14_pruned.
+
+Lemma root_not_end ops : is_end (root (run ops)) = false.
+Proof. destruct (inv_run ops) as [R Hn]. exact (rep_root_not_end _ _ R Hn). Qed.
+
+(* "For dictionaries of literal words a text is reported as containing a match if and only
+   if some dictionary word occurs in it" — literal_ops: no added word contains '*' *)
+Theorem c14_contains_iff : forall ops s, literal_ops ops ->
+  contains_text (run ops) s = true <->
+  exists w, terminal (root (run ops)) w = true /\ occurs w s.
+Proof.
+  intros ops s Hl. rewrite (contains_literal _ s (literal_run ops Hl) (root_not_end ops)).
+  split; intros [w H]; exists w; [tauto|].
+  destruct H as [H1 H2]. split; [assumption|]. split; [|assumption].
+  intros ->. rewrite terminal_nil, root_not_end in H1. discriminate.
+Qed.
+Print Assumptions c14_contains_iff.
+
+(* "filtering a text keeps its length" — holds for every dictionary, literal or not *)
+Theorem c14_filter_length : forall ops s, length (filter_text (run ops) s) = length s.
+Proof. intros ops s. rewrite (filter_text_filt _ s (root_not_end ops)). apply filt_length. Qed.
+Print Assumptions c14_filter_length.
+
+(* "... and every character outside a match": a position either keeps its character or
+   carries the mask and lies inside an occurrence of a dictionary word in the text *)
+Theorem c14_filter_outside_kept : forall ops s i, literal_ops ops -> (i < length s)%nat ->
+  nth i (filter_text (run ops) s) 0 = nth i s 0 \/
+  (nth i (filter_text (run ops) s) 0 = mask /\
+   exists a w b, s = a ++ w ++ b /\ terminal (root (run ops)) w = true /\
+                 (length a <= i < length a + length w)%nat).
+Proof. intros ops s i Hl Hi. apply filter_outside_kept; [apply literal_run, Hl | apply root_not_end | exact Hi]. Qed.
+Print Assumptions c14_filter_outside_kept.
+
+(* "... while leaving no dictionary word in the result".  The mask is the character '*',
+   so this can only be claimed for words without '*': a literal dictionary (the statement's
+   own premise).  With the word "*" in the dictionary the filtered text "*" still contains
+   it — Example c14_filter_clean_needs_literal below. *)
+Theorem c14_filter_clean : forall ops s w, literal_ops ops ->
+  terminal (root (run ops)) w = true -> ~ occurs w (filter_text (run ops) s).
+Proof.
+  intros ops s w Hl Hw. apply filter_clean; [apply literal_run, Hl | apply root_not_end | exact Hw|].
+  apply (literal_run ops Hl w). apply terminal_has_path. exact Hw.
+Qed.
+Print Assumptions c14_filter_clean.
+
+(* on literal dictionaries Contains, Filter and ExactMatch are functions of the word set:
+   two histories with the same words answer every text alike *)
+Theorem c14_matching_depends_only_on_words : forall ops1 ops2, literal_ops ops1 -> literal_ops ops2 ->
+  (forall w, terminal (root (run ops1)) w = terminal (root (run ops2)) w) ->
+  forall s, contains_text (run ops1) s = contains_text (run ops2) s /\
+            filter_text (run ops1) s = filter_text (run ops2) s /\
+            exact_match (run ops1) s = exact_match (run ops2) s.
+Proof.
+  intros ops1 ops2 H1 H2. apply matching_depends_on_words;
+    [apply literal_run, H1 | apply root_not_end | apply literal_run, H2 | apply root_not_end].
+Qed.
+Print Assumptions c14_matching_depends_only_on_words.
+
+(* "a wildcard in a dictionary word stands for any single character": if literal and
+   wildcard branches never compete (no two words continue a common prefix one with '*' and
+   the other with another character), a text matches iff it contains an instance of a
+   dictionary word in which every '*' is replaced by exactly one arbitrary character *)
+Theorem c14_wildcard : forall ops s,
+  nc_dict (fun w => terminal (root (run ops)) w = true) ->
+  contains_text (run ops) s = true <->
+  exists w a s1 b, s = a ++ s1 ++ b /\ terminal (root (run ops)) w = true /\ pmatch w s1.
+Proof.
+  intros ops s Hd. apply contains_wild; [|apply root_not_end].
+  apply nc_of_dict; [|exact Hd]. destruct (inv_run ops) as [R _]. exact (rep_pruned _ _ R).
+Qed.
+Print Assumptions c14_wildcard.
+
+(* Non-vacuity. *)
+Definition ex_ops : list op :=
+  [AddWord [97]; AddWord [97; 97]; AddWord [19990; 233]; RemoveWord [97]; AddWord []; RemoveWord [98]].
+
+Example c14_example_literal :
+  literal_ops ex_ops /\ size (run ex_ops) = 2 /\
+  terminal (root (run ex_ops)) [97; 97] = true /\ terminal (root (run ex_ops)) [97] = false /\
+  contains_text (run ex_ops) [98; 97; 97; 98] = true /\
+  filter_text (run ex_ops) [98; 97; 97; 97; 19990; 233] = [98; 42; 42; 97; 42; 42].
+Proof.
+  split.
+  - intros w Hin. cbn in Hin. unfold star. cbn.
+    repeat (destruct Hin as [Hin|Hin]; [inversion Hin; subst; cbn; intuition discriminate|]). contradiction.
+  - vm_compute. repeat split.
+Qed.
+
+(* a non-competing wildcard dictionary: {a*, b*c} *)
+Definition ex_wild : list op := [AddWord [97; 42]; AddWord [98; 42; 99]].
+Example c14_example_wildcard :
+  nc_dict (fun w => terminal (root (run ex_wild)) w = true) /\
+  contains_text (run ex_wild) [120; 98; 120; 99] = true /\
+  contains_text (run ex_wild) [120; 98; 99] = false.
+Proof.
+  split; [|vm_compute; split; reflexivity].
+  intros p c r1 r2 H1 H2.
+  destruct (inv_run ex_wild) as [R _].
+  apply (rep_terminal _ _ R) in H1. apply (rep_terminal _ _ R) in H2.
+  change (spec_run ex_wild) with [[98; 42; 99]; [97; 42]] in H1, H2. unfold star in *. cbn in H1, H2.
+  destruct H1 as [H1|[H1|[]]]; destruct H2 as [H2|[H2|[]]];
+    repeat (destruct p as [|? p]; cbn in H1, H2; try discriminate);
+    inversion H1; inversion H2; subst; try reflexivity; try discriminate; congruence.
+Qed.
+
+(* why c14_filter_clean is restricted to literal words: the mask is '*' itself *)
+Example c14_filter_clean_needs_literal :
+  let t := run [AddWord [42]] in
+  terminal (root t) [42] = true /\ filter_text t [97] = [42] /\ occurs [42] (filter_text t [97]).
+Proof. repeat split. exists [], []. reflexivity. Qed.
